@@ -139,8 +139,8 @@ def rule_marking(rep, prog, eff, strict=False):
                         # element loop spelt with enumerate(): item i is stored at start.add(i); the loop runs `count` times and is only
                         # left when the chain is exhausted, so count * size_of::<T>() bytes were written from the first byte on
                         nn = norm(n)
-                        okn = (nn[0] == 'bin' and nn[1] == 'Mul' and any(is_size_of(x) for x in (nn[2], nn[3]))
-                               and any(loops.final_count_var(b, il, x) for x in (nn[2], nn[3]))
+                        okn = (nn[0] == 'bin' and nn[1] == 'Mul' and any(is_size_of(eff.inline(x)) for x in (nn[2], nn[3]))
+                               and any(loops.counts_items(b, il, x) for x in (nn[2], nn[3]))
                                and m["call"].bb not in il["blocks"])
                         rep("R5.1.extent", minst, okn, mwhere, f"element loop stores item i at start.add(i); mark length `{tstr(m['n'])}` must be (iterations of that loop) * size_of::<T>(), after the loop")
                         continue
